@@ -1,3 +1,12 @@
 module verifgen
 
-go 1.23
+go 1.26.3
+
+// go/types loading for extractors that need resolved types (maprange). Versions are the ones
+// pinned by /repo/go/go.sum (copied next to this file on every run) and present in the module cache.
+require golang.org/x/tools v0.47.0
+
+require (
+	golang.org/x/mod v0.37.0 // indirect
+	golang.org/x/sync v0.22.0 // indirect
+)
